@@ -81,8 +81,8 @@ def replay(ctx, name, frames_path, dot, min_edges=100):
     return st, rj, first
 
 
-SCRIPTS_Q = [[], [0], [1], [-1], [1, -1], [-2, 0], [-2, 1, 0], [-2, -1]]
-SCRIPTS_T = SCRIPTS_Q + [[1023, 1, 0], [-2, -2, -1], [0, 0], [2000, -1, -2]]
+SCRIPTS_Q = [[], [0], [1], [-1], [1, -1], [-2, 0], [-2, 1, 0], [-2, -1], [-2, 1, -1]]
+SCRIPTS_T = SCRIPTS_Q + [[1023, 1, 0], [-2, -2, -1], [0, 0], [2000, -1, -2], [-2, 700, -1], [-2, 1, 1, -1]]
 
 
 def make_frames(ctx, setname):
